@@ -186,6 +186,7 @@ def main(tier, seed):
             e.obligation("running-mean-of-discounted-returns-per-visit", mc_spec, cases=cases)
 
     _dynaq_model(rep, tier, seed)
+    _dynaq_train_model(rep, tier, seed)
     if tier == "thorough":
         bad = sess.cross_check()
         rep.extra["cvc5_disagreements"] = bad
@@ -274,6 +275,89 @@ def _dynaq_model(rep, tier, seed):
                                 ctx.check(model.reward[s, a, n] * cnt == tot, "dynaq-model:reward=mean-of-observed-rewards")
     e2.run("dynaq.counter_update/model_update", prog, fn="rl_blox.algorithm.dynaq.counter_update/model_update", site_of=lambda label: f"dynaq.model_update:{label}")
     rep.bounds["dynaq_model"] = f"{nS} states x {nA} actions, histories of {K} symbolic transitions (stochastic successors), symbolic rewards"
+
+
+def _dynaq_train_model(rep, tier, seed):
+    """The model that the real train_dynaq loop maintains (its own Counter / ForwardModel initialisation, the real
+    counter_update / model_update) equals the empirical frequencies / mean rewards of the transitions the environment produced.
+    Environment successor, reward and the behaviour action are symbolic; Q-updates and planning are identity stubs."""
+    from e2_pysym import core as E
+    from e2_pysym.core import sym_int, sym_real
+    from props.e2common import E2Report, overlay
+    from rl_blox.algorithm import dynaq
+    e2 = E2Report(PROP, tier, seed)
+    e2.r = rep
+    nS, nA = 2, 2
+    K = 3 if tier == "quick" else 4
+
+    class JnpShim:
+        def __getattr__(self, k):
+            import jax.numpy as jnp
+            return getattr(jnp, k)
+
+        @staticmethod
+        def asarray(x, *a, **k):
+            return AtArr(np.asarray(list(x), dtype=object))
+
+        array = asarray
+
+        @staticmethod
+        def zeros(shape, *a, **k):
+            return AtArr(np.zeros(shape, dtype=object))
+
+    def prog(ctx):
+        hist, models = [], []
+
+        class Env:
+            def __init__(self):
+                self.k = 0
+                self.obs = 0
+
+            def reset(self, seed=None):
+                self.obs = int(sym_int(f"reset{self.k}", 0, nS - 1))
+                return self.obs, {}
+
+            def step(self, act):
+                n_ = int(sym_int(f"n{self.k}", 0, nS - 1))
+                r_ = sym_real(f"r{self.k}")
+                done = bool(E.sym_bool(f"terminated{self.k}"))
+                hist.append((self.obs, int(act), n_, r_))
+                self.obs = n_
+                self.k += 1
+                return n_, r_, done, False, {}
+
+        def eps_greedy(q, obs, *a, **k):
+            return int(sym_int(f"a{len(hist)}", 0, nA - 1))
+
+        real_update = dynaq.model_update
+
+        def spy(model, counter, *a):
+            m = real_update(model, counter, *a)
+            models.append(dynaq.ForwardModel(transition=m.transition, reward=m.reward))  # snapshot: the model object is updated in place
+            return m
+
+        with overlay(dynaq, jnp=JnpShim(), epsilon_greedy_policy=eps_greedy, q_learning_update=lambda *a: a[-1], planning=lambda *a: a[-1],
+                     model_update=spy, float=lambda x: x, trange=lambda n, **k: range(n)):
+            dynaq.train_dynaq(Env(), np.zeros((nS, nA)), total_timesteps=K, n_planning_steps=1, progress_bar=False)
+        ctx.check(len(models) == K and len(hist) == K, "dynaq-train:model-updated-once-per-step")
+        for i, model in enumerate(models):
+            seen = hist[: i + 1]
+            for s in range(nS):
+                for a in range(nA):
+                    visits = [(n, r) for (s0, a0, n, r) in seen if (s0, a0) == (s, a)]
+                    if not visits:
+                        continue
+                    for n in range(nS):
+                        cnt = len([1 for (n0, _) in visits if n0 == n])
+                        ctx.check(model.transition[s, a, n] * len(visits) == cnt, "dynaq-train:model-transition=empirical-successor-frequencies")
+                        if cnt:
+                            tot = 0
+                            for (n0, r0) in visits:
+                                if n0 == n:
+                                    tot = tot + r0
+                            ctx.check(model.reward[s, a, n] * cnt == tot, "dynaq-train:model-reward=mean-of-observed-rewards")
+    e2.run("dynaq.train_dynaq[model]", prog, fn="rl_blox.algorithm.dynaq.train_dynaq/counter_update/model_update", site_of=lambda label: f"dynaq.train_dynaq:{label}")
+    rep.bounds["dynaq_train_model"] = f"real train_dynaq loop, {nS} states x {nA} actions, {K} steps, symbolic action / successor / reward / termination per step"
 
 
 def replay(path):
